@@ -300,6 +300,7 @@ func c14entries() []c14entry {
 		{"std log Printf", "bridge", func(e *c14env) (s c14site) { e.std.Printf(mark(&s)+" %d", 1); return }},
 		{"std log Println", "bridge", func(e *c14env) (s c14site) { e.std.Println(mark(&s)); return }},
 		{"std log Output(1)", "bridge", func(e *c14env) (s c14site) { _ = e.std.Output(1, mark(&s)); return }},
+		{"Warn from a tiny function of ANOTHER source file, inlined into a function that has just logged a record itself", "native", func(e *c14env) (s c14site) { e.l.Info("m"); e.reset(); c14otherFileInl(e.l); return c14siteOf(c14otherFileInl) }},
 		// user code in a package that is itself named log
 		{"std log Print from a user package named log", "bridge", func(e *c14env) c14site { return c14from(applog.ViaBridgePrint(e.std)) }},
 		{"std log Printf from a user package named log", "bridge", func(e *c14env) c14site { return c14from(applog.ViaBridgePrintf(e.std)) }},
